@@ -165,7 +165,12 @@ def run_scenario(args):
         def add(req, exp, owner, what):
             reqs.append(req); expect.append(exp); owners.append((owner, what))
         # INIT
-        add("INIT", impl_init(sc, env, envP), "C09", "initial tensor / dims / bounds / initial observations")
+        try:
+            add("INIT", impl_init(sc, env, envP), "C09", "initial tensor / dims / bounds / initial observations")
+        except C.ImplLayout as e:
+            # the tensors cannot even be read in the documented layout; the other checks still run
+            res["findings"].append(C.layout_finding(e, "initial state / observations",
+                                                    dict(scenario_kind=kind, scenario_index=idx, scenario=desc)))
         # ACTS
         acts = env.action_space.actions
         flat = [len(acts)] + [t for a in acts for t in C.act_tokens(sc, a)]
@@ -247,6 +252,12 @@ def run_scenario(args):
                              requests=reqs[1:2] + reqs[3:5])
     except C.Untranslatable as e:
         res["error"] = f"untranslatable: {e}"
+    except C.ImplLayout as e:
+        res["findings"].append(C.layout_finding(e, "layout / action-space suite",
+                                                dict(scenario_kind=kind, scenario_index=idx)))
+    except C.ImplAction as e:
+        res["findings"].append(C.action_finding(e, "layout / action-space suite",
+                                                dict(scenario_kind=kind, scenario_index=idx)))
     except Exception as e:
         if C.raised_by_implementation(e):
             res["findings"].append(C.impl_exception_finding(e, "layout / action-space suite",
